@@ -189,6 +189,11 @@ func newHandler(ctx context.Context, srv *Server, rw RpcReadWriter) *handler {
 func (h *handler) serve(clientCtx context.Context) error {
 	defer h.cancel(fmt.Errorf("serve done"))
 
+	// Handler contexts derive from clientCtx: make sure they are cancelled when
+	// this connection stops being served.
+	clientCtx, cancelClientCtx := context.WithCancel(clientCtx)
+	defer cancelClientCtx()
+
 	ctx := h.ctx
 
 	for _, sh := range h.srv.statsHandlers {
@@ -226,7 +231,13 @@ func (h *handler) serve(clientCtx context.Context) error {
 			for {
 				select {
 				case args := <-h.unaryRpcChan:
-					h.writeChan <- h.processUnaryRpc(clientCtx, args.info, args.md, args.rpc)
+					resp := h.processUnaryRpc(clientCtx, args.info, args.md, args.rpc)
+					select {
+					case h.writeChan <- resp:
+					case <-h.ctx.Done():
+						// the writer is gone: nobody will ever take the reply
+						return
+					}
 				case <-unaryRpcCtx.Done():
 					return
 				}
